@@ -17,6 +17,7 @@ import PicoVerif.Model.Include
 import PicoVerif.Model.Require
 import PicoVerif.Model.ReqWalk
 import PicoVerif.Model.ToFile
+import PicoVerif.Spec.EmptyCart
 /-! Line-protocol driver over the executable models (compiled; must not import Mathlib).
 One request per line: `op arg arg ...`; one response line per request.
 Byte strings travel as lower-case hex (`-` = empty). -/
@@ -528,7 +529,8 @@ def handle (st : St) (line : String) : St × String :=
           else match e.splitOn ":" with
             | ["r", h] => (parseHex h).map fun b => .returns [b]
             | _ => none
-        enc.map fun en => { name := n, png := png == "1", loads := loads == "1", enc := en }
+        if (png == "1") != (n.endsWith ".p8.png") then none else
+        enc.map fun en => { name := n, loads := loads == "1", enc := en }
       | _ => none
     let parseEntry (w : String) : Option (String × Bytes) :=
       match w.splitOn "=" with
@@ -543,6 +545,9 @@ def handle (st : St) (line : String) : St × String :=
       let oc' := match oc with | .raised => "raised" | .done true => "rc1" | .done false => "rc0"
       s!"ok {oc'} " ++ (if sorted.isEmpty then "." else ";".intercalate (sorted.map fun n => s!"{n}={showHex ((ToFile.Store.get st' n).getD [])}"))
     | _, _ => "bad-op"
+  -- the content of a new PICO-8 cart (Spec.Empty): gfx map gff music sfx
+  | ["emptycart"] =>
+    "ok " ++ " ".intercalate ([Spec.Empty.gfx, Spec.Empty.map, Spec.Empty.gff, Spec.Empty.music, Spec.Empty.sfx].map showHex)
   | ["stripdec", np, m] =>
     match (np.splitOn ":").mapM parseHex, (if m == "n" then some none else (parseHex m).map some) with
     | some np, some m => if Req.stripsStat np m then "ok 1" else "ok 0"
